@@ -2,13 +2,14 @@ import TarpcModel.Lemmas.ServerPanic
 /-!
 # C16 (server) — the server channel never panics
 
-Property theorems only.  The server model has two panicking sites (`Server/Model.lean`):
-`DelayQueue::remove` with an unknown key (`removeTimer`) and the range check of `DelayQueue::insert` in
-`start_request` (a timer more than `2^36 - 1` ms ahead of the wheel).  The first is unreachable outright
-(the table / timer bijection of `Lemmas/ServerTable.lean`; `C09_server_no_other_panic`).  The second is
-unreachable because `start_request` clamps the timeout it arms (`clampTimeout`,
-`Gen.serverTimerClampSecs` seconds): for a clock below `2^35` ms
-`when - wheelElapsed ≤ ceilMs (now + clamp) ≤ now_ms + clamp_ms + 1 ≤ 2^36 - 1` whatever deadline the peer sends.
+Property theorems only.  The server model has three panicking sites (`Server/Model.lean`):
+`DelayQueue::remove` with an unknown key (`removeTimer`) and the range check of `DelayQueue::insert` (a
+timer more than `2^36 - 1` ms ahead of the wheel) in `start_request` and in the re-arm of `poll_expired`
+(`rearm`).  The first is unreachable outright (the table / timer bijection of `Lemmas/ServerTable.lean`;
+`C09_server_no_other_panic`).  The other two are unreachable because both arm a clamped timeout
+(`clampTimeout`, `Gen.serverTimerClampSecs` seconds) at the current clock: for a clock below `2^35` ms
+`when - wheelElapsed ≤ ceilMs (now + clamp) ≤ now_ms + clamp_ms + 1 ≤ 2^36 - 1` whatever deadline the peer
+sends (`insert_panic_late`; the argument does not need the wheel's `elapsed` to have advanced).
 
 The scripts quantified over are all op lists whose total advanced virtual time `advSum ops` (the sum of
 their `advance` amounts — the clock starts at 0 and only `advance` moves it) is below `2^35` ms ≈ 397
@@ -69,7 +70,7 @@ theorem C16_server_panic_only_late (limit : Option Nat) (respCap tcap : Nat) (co
       Obs.panic t site ∈ (ops.foldl applyOp (initSys limit respCap tcap coupled)).s.obs) :
     site = "DelayQueue::insert: invalid deadline" ∧ 2 ^ 35 * nsPerMs ≤ advSum ops := by
   rcases h with h | h
-  · have := trace_panic_ok ops (initSys limit respCap tcap coupled) (fun _ => 0) false
+  · have := trace_panic_ok ops (initSys limit respCap tcap coupled) false
       (sinv_init false limit respCap tcap coupled) t site h
     have h0 : (initSys limit respCap tcap coupled).now = 0 := rfl
     rw [h0, Nat.zero_add] at this
